@@ -2,6 +2,7 @@
 import json
 import os
 import random
+from concurrent.futures import ThreadPoolExecutor
 import connlib
 import vlib
 
@@ -47,7 +48,16 @@ def run_scripts(ctx, scripts, name):
     scen = os.path.join(ctx.work, name + "_scen.jsonl")
     vlib.write_jsonl(scen, scripts)
     trace = os.path.join(ctx.work, name + ".ndjson")
-    ctx.harness(["life", "--scenarios", scen, "--out", trace], timeout=3600)
+    # the scripts are independent (one fresh server each): run them in parallel harness processes with disjoint port ranges
+    n = max(1, min(8, len(scripts) // 50))
+    parts = [os.path.join(ctx.work, "%s_part%d.ndjson" % (name, i)) for i in range(n)]
+    with ThreadPoolExecutor(n) as ex:
+        list(ex.map(lambda i: ctx.harness(["life", "--scenarios", scen, "--out", parts[i], "--shard", i, "--of", n], timeout=3600), range(n)))
+    with open(trace, "wb") as out:
+        for part in parts:
+            with open(part, "rb") as f:
+                out.write(f.read())
+            os.remove(part)
     ctx.stage(name + "-harness")
     accepted, scs, lines = ctx.validate(trace, "TraceServer", stateful=True, constants="CONSTANT Diagnose = FALSE\n")
     ctx.stage(name + "-validate")
@@ -57,7 +67,12 @@ def run_scripts(ctx, scripts, name):
 def run(ctx):
     thorough = ctx.tier == "thorough"
     ctx.build()
-    mc = ctx.tlc("MC_C15", "MC_C15_thorough.cfg" if thorough else "MC_C15_quick.cfg", name="MC_C15", workers=vlib.NCPU, timeout=3000)
+    # exhaustive with the script history (1 client, short programs): every maximal path is a script
+    mc = ctx.tlc("MC_C15", "MC_C15_quick.cfg", name="MC_C15", workers=vlib.NCPU, timeout=3000)
+    # exhaustive WITHOUT the history variable (2 clients, programs up to 6 calls): design-level invariants only
+    big = ctx.tlc("MC_C15", "MC_C15_thorough.cfg", name="MC_C15_big", workers=vlib.NCPU, timeout=3000)
+    # random maximal paths of that bigger model as scripts
+    sim = ctx.tlc("MC_C15", "MC_C15_sim.cfg", name="MC_C15_sim", workers=1, timeout=3000, simulate="num=%d" % (30000 if thorough else 1000), depth=90)
     variant = ctx.tlc("MC_C15", "MC_C15_variant.cfg", name="MC_C15_variant", workers=2, timeout=600, tolerate_violation=True)
     ctx.notes.append("spec mutation (an exiting loop closes the CURRENT listener): ServingWhileRunning -> %s" % (variant.violated or "NOT violated"))
     if not variant.violated:
@@ -70,10 +85,13 @@ def run(ctx):
     if ctx.replay:
         chosen, nshapes = [json.load(open(ctx.replay))["scenario"]], 1
     else:
-        chosen, nshapes = select(scripts, 20000 if thorough else 1500, rng)
-        tsel, tshapes = select([t for t in tls_scripts if any(st[0] == "dial" and st[2] == "tls" for st in t["script"])], 4000 if thorough else 300, rng)
+        chosen, nshapes = select(scripts, 20000 if thorough else 2500, rng)
+        tsel, tshapes = select([t for t in tls_scripts if any(st[0] == "dial" and st[2] == "tls" for st in t["script"])], 6000 if thorough else 600, rng)
         chosen += tsel
         nshapes += tshapes
+        ssel, sshapes = select([json.loads(x) for x in sim.scenarios], 30000 if thorough else 1000, rng)
+        chosen += ssel
+        nshapes += sshapes
     ctx.stage("generate")
     accepted, scs, lines = run_scripts(ctx, chosen, "c15")
     infeasible = 0
@@ -81,10 +99,12 @@ def run(ctx):
     for sc in scs:
         if any('"ev":"infeasible"' in l for l in lines[sc]):
             infeasible += 1
-        if sc not in accepted:
-            idx, ev = connlib.diagnose(ctx, lines[sc], "TraceServer") if len(groups) < 25 else (0, {"ev": "undiagnosed"})
-            key = json.dumps({k: ev.get(k) for k in ("ev", "kind", "where", "state", "dialed", "served", "ok", "conns", "goroutines", "err", "call") if k in ev})
-            groups.setdefault(key, []).append(sc)
+    rejected = sorted((sc for sc in scs if sc not in accepted), key=lambda s: len(lines[s]))
+    for n, sc in enumerate(rejected):
+        # the first rejected event is located for the 40 shortest rejected scripts; the rest are reported as one group
+        idx, ev = connlib.diagnose(ctx, lines[sc], "TraceServer") if n < 40 else (0, {"ev": "undiagnosed"})
+        key = json.dumps({k: ev.get(k) for k in ("ev", "kind", "where", "state", "dialed", "served", "ok", "conns", "goroutines", "err", "call") if k in ev})
+        groups.setdefault(key, []).append(sc)
     if infeasible == len(scs):
         raise vlib.Inconclusive("every script was infeasible: the schedule driver is dead")
     for key, members in sorted(groups.items(), key=lambda kv: -len(kv[1])):
@@ -93,7 +113,7 @@ def run(ctx):
                       {"scenario": chosen[sc - 1], "count": len(members), "trace": [json.loads(x) for x in lines[sc]][:120]})
     samples = [{"program": chosen[sc - 1]["prog"], "script": chosen[sc - 1]["script"][:14], "accepted": sc in accepted} for sc in scs[1:400:150]]
     return ctx.finish("model_checking", {
-        "states": mc.distinct, "transitions": mc.generated,
+        "states": mc.distinct + big.distinct + mct.distinct, "transitions": mc.generated + big.generated + mct.generated,
         "traces_validated_against_impl": len(scs), "evaluations": len(scs), "distinct_nontrivial": nshapes,
         "rule": "Server.tla (listener generations, accept loops, registration guard) explored by TLC for every interleaving of the controller "
                 "programs with loop and connection steps; invariants ServingWhileRunning, RegistryExact, StopPostcondition hold for the intended "
